@@ -8,7 +8,8 @@
     2^7 option vectors.  A trace is the list of results of successive calls, each result carrying token kind, value,
     [line_num] and [_last_was_cr] after the call, or the error site with its line; it ends at the first error. *)
 From Coq Require Import List NArith ZArith Bool.
-From SV Require Import Text.Str Text.Prog Text.ProgProofs Text.Tokenizer Text.TokenizerProofs Text.KvErrModel Text.KvErrProofs.
+From SV Require Import Text.Str Text.Prog Text.ProgProofs Text.Tokenizer Text.TokenizerProofs Text.KvErrModel Text.KvErrProofs
+  Text.BaseTok Text.BaseTokProofs Text.BaseTokTokenizer.
 Import ListNotations.
 
 (** Generic: NO reader program can tell a chunked source from the flat string it denotes — same result, and the
@@ -40,7 +41,7 @@ Theorem c03_get_token_total : forall T o, ops_no_eof T = true ->
   let r := run_flat (get_token T o f line lcr) l in
   fst r <> RFuel
   /\ (forall v ln b, fst r = RTok EOF v ln b -> snd r = [] /\ v = [] /\ True)
-  /\ (reads (get_token T o f line lcr) l + 2 * length (snd r) <= 2 * length l + 1)%nat.
+  /\ (Prog.reads (get_token T o f line lcr) l + 2 * length (snd r) <= 2 * length l + 1)%nat.
 Proof.
   intros T o H f l line lcr Hf. destruct (get_token_total T o H f l line lcr Hf) as [[H1 H2] H3].
   cbv zeta. repeat split; try assumption; apply (H2 v ln b H0).
@@ -72,7 +73,7 @@ Theorem c03_trace_reads_linear : forall T o, ops_no_eof T = true ->
   forall n fuel line lcr l, (length l < fuel)%nat -> (trace_reads T o n fuel line lcr l <= 2 * length l + n)%nat.
 Proof. exact trace_reads_linear. Qed.
 
-Theorem c03_reads_chunk_independent : forall (A : Type) (p : Prog A) l s, R l s -> reads_chk p s = reads p l.
+Theorem c03_reads_chunk_independent : forall (A : Type) (p : Prog A) l s, R l s -> reads_chk p s = Prog.reads p l.
 Proof. exact @reads_chunk_independent. Qed.
 
 (** Non-vacuity: a concrete run (star comment cut inside "*/", CR-LF cut in the middle, an empty chunk). *)
@@ -132,3 +133,63 @@ Theorem c03_kvparse_unguarded_refuted :
   /\ run all_guarded ko_default [S_; (PROP_FLAG, [120]%N); NL_; (BRACE_OPEN, []); (BRACE_CLOSE, []); S_; S_; (PROP_FLAG, [33; 120]%N); NL_] = OOk
   /\ cfg_safe all_guarded = true.
 Proof. vm_compute. repeat split; reflexivity. Qed.
+
+(** ---- The token-level layer [BaseTokenizer] (Text/BaseTok.v): [__call__] with the push-back list, [peek],
+    [push_back]; generic over the underlying source [get] (= [_get_token] of Tokenizer or IterTokenizer).  [c] says which
+    end of [_pushback] each method uses (regenerated from the source; obligation [lifo gen_bcfg = true]). ---- *)
+
+(** Every sequence of calls, peeks and push-backs returns what the same sequence returns on the logical stream
+    "pushed-back tokens, last pushed first, then the stream [_get_token] delivers" ([view]); [n] only bounds how much
+    of that stream is looked at. *)
+Theorem c03_basetok_refines_logical_stream : forall (S E : Type) (get : S -> (ptok + E) * S) c, lifo c = true ->
+  forall ops b n, (BaseTok.reads ops <= n)%nat -> fst (run S E get c ops b) = srun E ops (view S E get c n b).
+Proof. exact run_refines. Qed.
+
+(** Delivery = underlying stream: with nothing pushed back explicitly, whatever mixture of calls and peeks is made,
+    the tokens the calls return are the first tokens of [_get_token]'s stream, in order, none lost or repeated. *)
+Theorem c03_basetok_delivery_is_underlying_stream : forall (S E : Type) (get : S -> (ptok + E) * S) c, lifo c = true ->
+  forall ops b, pb b = [] -> Forall (fun o => match o with Push _ => False | _ => True end) ops ->
+  exists k, map snd (filter fst (fst (run S E get c ops b))) = firstn k (unfold S E get (BaseTok.reads ops) (src b)).
+Proof. exact delivery_is_underlying_stream. Qed.
+
+(** LIFO, one level: push_back then call returns the token and restores the state; peek shows what the next call
+    returns; a re-delivered token does not touch the source (so [line_num] stays where the furthest read left it). *)
+Theorem c03_basetok_call_after_push_back : forall (S E : Type) (get : S -> (ptok + E) * S) c, lifo c = true ->
+  forall x b, call S E get c (push S c x b) = (inl x, b).
+Proof. exact call_push. Qed.
+Theorem c03_basetok_peek_then_call : forall (S E : Type) (get : S -> (ptok + E) * S) c, lifo c = true ->
+  forall b x b1, call S E get c b = (inl x, b1) ->
+  fst (peek S E get c b) = inl x /\ call S E get c (snd (peek S E get c b)) = (inl x, b1).
+Proof. exact peek_then_call. Qed.
+Theorem c03_basetok_redelivery_keeps_source : forall (S E : Type) (get : S -> (ptok + E) * S) c b x l,
+  pb_pop (pop_last c) (pb b) = Some (x, l) -> call S E get c b = (inl x, {| pb := l; src := src b |}).
+Proof. exact redelivery_keeps_source. Qed.
+
+(** Chunk independence through the layer: over [Tokenizer] as the source, any sequence of calls / peeks / push-backs,
+    and [expect], give the same tokens, values and errors and leave the same push-back list, [line_num] and
+    [_last_was_cr], whether the text is one string or any sequence of chunks ([R l s]). *)
+Theorem c03_basetok_ops_chunk_independent : forall T o fuel c ops pbl line lcr l s, R l s ->
+  fst (run _ _ (tk_get_flat T o fuel) c ops {| pb := pbl; src := (line, lcr, l) |})
+  = fst (run _ _ (tk_get_chk T o fuel) c ops {| pb := pbl; src := (line, lcr, s) |})
+  /\ Rb _ _ Rtk (snd (run _ _ (tk_get_flat T o fuel) c ops {| pb := pbl; src := (line, lcr, l) |}))
+                (snd (run _ _ (tk_get_chk T o fuel) c ops {| pb := pbl; src := (line, lcr, s) |})).
+Proof. exact bt_ops_chunk_independent. Qed.
+Theorem c03_basetok_expect_chunk_independent : forall T o fuel c f want skip pbl line lcr l s, R l s ->
+  fst (expect _ _ (tk_get_flat T o fuel) c f want skip {| pb := pbl; src := (line, lcr, l) |})
+  = fst (expect _ _ (tk_get_chk T o fuel) c f want skip {| pb := pbl; src := (line, lcr, s) |}).
+Proof. exact bt_expect_chunk_independent. Qed.
+
+(** [IterTokenizer]: delivers the wrapped items, then (EOF, '') for ever. *)
+Theorem c03_itertokenizer_stream : forall l n, (length l <= n)%nat ->
+  unfold (list ptok) Empty_set iter_get n l = map inl l ++ repeat (inl (EOF, [])) (n - length l).
+Proof. exact iter_delivers_the_list. Qed.
+
+(** The LIFO condition is not decoration: popping the other end (FIFO) re-delivers two pushed-back tokens in the
+    wrong order. *)
+Theorem c03_basetok_fifo_refuted :
+  let c := {| pop_last := false; push_last := true; peek_last := true |} in
+  let b := {| pb := []; src := ([] : list ptok) |} in
+  lifo c = false /\
+  fst (run _ _ iter_get c [Push (STRING, [97]%N); Push (STRING, [98]%N); Call; Call] b)
+  = [(true, inl (STRING, [97]%N)); (true, inl (STRING, [98]%N))].
+Proof. vm_compute. split; reflexivity. Qed.
